@@ -310,6 +310,52 @@ def run(res, tier):
     res.ob('RE-ASK', f.where(own[0]), 'GetPulseTimeAux asks the node itself before it drains the children awaiting recalculation', not bad, function=f.q, key='RE-ASK|%s|self-before-children' % f.q,
            message='GetPulseTimeAux drains the pending children before calling the node\'s own GetPulseTime(): a child that the callback invalidates or attaches becomes pending after the list was emptied, '
                    'its time never reaches the root and it is never pulsed')
+    # ---- ROOTS: the server drives every root pulse node it owns (factories, sessions, gateways, policies, itself) on every pass, whatever their I/O state
+    res.rule('ROOTS', 'every CallGetPulseTimeAux / CallPulseAux in ReflectServer is control dependent only on the existence of the node it is called for (non-null pointer / Ref, non-empty '
+                      'container, iterator has data), never on I/O readiness or per-object state', floor=8)
+    n_rt = 0
+    for g in sorted((g for g in fx.funcs.values() if g.full and g.q.startswith('muscle::ReflectServer::')), key=lambda g: (g.file, g.line)):
+        for c in g.walk():
+            if not (c.is_call() and (c.get('q') or '').split('::')[-1] in ('CallGetPulseTimeAux', 'CallPulseAux')):
+                continue
+            n_rt += 1
+            bad = None
+            for (a, t) in G.atoms_at(g, c):
+                a0 = A.strip_casts(a)
+                exist = False
+                if a0.is_call() and (a0.get('q') or '').split('::')[-1] in ('HasItems', 'HasData', 'IsEmpty', 'operator()', 'GetItemPointer'):
+                    exist = True
+                elif a0['k'] in ('DeclRefExpr', 'MemberExpr') and (a0.type().rstrip().endswith('*') or 'Ref' in a0.type()):
+                    exist = True
+                elif any(l_['k'] in ('DeclRefExpr', 'MemberExpr') and l_.type().rstrip().endswith('*') and (r_['k'] in ('GNUNullExpr', 'CXXNullPtrLiteralExpr') or r_.get('v') == 0) for (l_, op_, r_) in A.rel_forms(a0, True) if op_ in ('==', '!=')):
+                    exist = True
+                if not exist:
+                    bad = bad or a0
+            res.ob('ROOTS', g.where(c), '%s line %s: %s(%s) depends only on the existence of the node' % (g.q.split('::')[-1], c.get('l'), (c.get('q') or '').split('::')[-1], c.args()[0].text(30) if c.args() else ''),
+                   bad is None, function=g.q, key='ROOTS|%s|%s:%s' % (g.q, (c.get('q') or '').split('::')[-1], A.strip_casts(c.args()[0]).text(30) if c.args() else ''),
+                   message='%s calls %s(%s) only under `%s`: a pulse node the server owns is not asked for its time / not pulsed while that condition is false, so its requested time is missing from the '
+                           'server\'s wake-up time and its callback does not run' % (g.q, (c.get('q') or '').split('::')[-1], c.args()[0].text(30) if c.args() else '', bad.text(50) if bad is not None else ''))
+    if n_rt < 8:
+        raise AnalysisBroken('ROOTS: only %d pulse-driving calls found in ReflectServer' % n_rt)
+    # ---- LINKS unlink-complete: taking a child out of a list updates both ends of the list
+    f = fx.fn1(PN + '::ReschedulePulseChild')
+    resets = [w for w in f.walk() if w['k'] == 'BinaryOperator' and w.get('op') == '=' and A.strip_casts(w['ch'][0])['k'] == 'MemberExpr' and A.strip_casts(w['ch'][0]).get('n') in LINKF
+              and not A.is_this_member(A.strip_casts(w['ch'][0])) and (A.strip_casts(w['ch'][1])['k'] in ('GNUNullExpr', 'CXXNullPtrLiteralExpr') or A.strip_casts(w['ch'][1]).get('v') == 0
+                                                                    or (A.strip_casts(w['ch'][1])['k'] == 'BinaryOperator' and A.strip_casts(w['ch'][1]).get('op') == '='))]
+    if not resets:
+        raise AnalysisBroken('LINKS: the reset of the unlinked child\'s sibling pointers was not found in ReschedulePulseChild')
+    ends = {'_firstChild': False, '_lastChild': False}
+    for w in f.walk():
+        if w['k'] == 'BinaryOperator' and w.get('op') == '=':
+            l_ = A.strip_casts(w['ch'][0])
+            if l_['k'] == 'ArraySubscriptExpr' and A.strip_casts(l_['ch'][0]).get('n') in ends and any(x['k'] == 'MemberExpr' and x.get('n') in LINKF for x in w['ch'][1].walk()):
+                if any(C.can_reach(f, P.pos_of(f, w), set([P.pos_of(f, r_)])) or (P.pos_of(f, w)[0] == P.pos_of(f, r_)[0] and P.pos_of(f, w)[1] < P.pos_of(f, r_)[1]) for r_ in resets if P.pos_of(f, w) and P.pos_of(f, r_)):
+                    ends[A.strip_casts(l_['ch'][0])['n']] = True
+    res.ob('LINKS', f.where(resets[0]), 'ReschedulePulseChild: unlinking a child repairs both _firstChild[list] and _lastChild[list] from the child\'s sibling links', all(ends.values()), function=f.q,
+           key='LINKS|%s|unlink-complete' % f.q, how=str(ends),
+           message='ReschedulePulseChild takes a child out of its list without repairing %s from the child\'s sibling pointer: when the child was at that end the list keeps pointing at a node that is no '
+                   'longer in it — the next insertion there links behind the departed node and becomes unreachable, so it is never asked or pulsed'
+                   % ' and '.join(k for k, v in ends.items() if not v))
     res.explanation = ('Static decision of the scheduler\'s structural invariants on util/PulseNode.cpp: the virtual Pulse() is dispatched only under (valid AND now >= scheduled time) with the scheduled time as '
                        'argument; children are descended only while due; a pulsed node is invalidated and every invalidation asks the parent for a recalculation; the aggregate time has one writer and is the '
                        'min of own and earliest child; the list links have one writer. The schedule over histories and re-entrancy from callbacks are not decided.')
